@@ -37,6 +37,24 @@ CHECKS = {
               "boxes (T=2 abstract taper) and for the recorded runs; the 1-LSB comparison is a numeric projection."),
         technique="TLA+ model of the worker/batch/file protocol checked with TLC + all-interleavings trace validation of hook-recorded real runs",
     ),
+    "C02": dict(
+        category="model_checking",
+        text=("TLC checks spec/sys/Compress.tla: compress_file / decompress_file / decompress_to_scratch as sequences of file "
+              "operations over an abstract directory, for every pre-existing directory (stale pairs, leftovers, scratch copies), "
+              "keep_original, and a failure after every step: no final-named .cbin / scratch .bin is ever partial, a source "
+              "disappears only when its replacement is complete, a failed call leaves the source untouched, completed calls "
+              "deliver, every entry path resolves to the recording. The real calls are then executed on real files with every "
+              "file operation of spikeglx/mtscomp instrumented from the harness and a fault injected at each operation in turn; "
+              "each observed directory sequence is validated as a trace (every step must be the spec's action for that "
+              "operation; property layer evaluated on every observed directory). spec/sys/CbinSlice.tla enumerates every slice "
+              "position relative to chunk boundaries; replayed as Reader(cbin)[sel] == Reader(bin)[sel] == NumPy rows."),
+        design_ref="DESIGN.md §4 C02",
+        note=("Trusted: TLC; the projection (a file is complete iff byte-identical to a reference image; compression is "
+              "deterministic for fixed parameters); wrappers around builtins.open (inside mtscomp), Path.rename/unlink, "
+              "shutil.move/copy; failures are exceptions at operation boundaries (no torn writes / power loss); mtscomp forced "
+              "to one thread during instrumented calls."),
+        technique="TLA+ file-operation state machine checked with TLC + fault-injected trace validation of the real calls",
+    ),
 }
 
 NOT_YET = {}
